@@ -1144,7 +1144,7 @@ func loadCorpus07() corpus07 {
 func runC07(r *Run, rng *Rng, tier string) error {
 	log.SetOutput(io.Discard)
 	r.shard = 100
-	nSeq, nStrip, nLawSeq, nBuild := 750, 200, 1300, 260
+	nSeq, nStrip, nLawSeq, nBuild := 650, 200, 1300, 260
 	if tier == "thorough" {
 		nSeq, nStrip, nLawSeq, nBuild = 8000, 2000, 30000, 4000
 	}
